@@ -824,7 +824,7 @@ func main() {
 		nrand := c.Scale(160, 3000)
 		for i := 0; i < nrand; i++ {
 			g := c.Rng.Fork()
-			budget := g.Range(3, 14)
+			budget := g.Range(3, 24)
 			files := []*Node{}
 			t := randTree(g, &budget, 0, &files)
 			if t.K == "link" {
@@ -839,6 +839,21 @@ func main() {
 			}
 			r.cases(t, nil, []config{k}, "random")
 		}
+
+		// --- observation outside the property's quantifier (path spelling, not tree shape): recorded, not judged
+		func() {
+			d := filepath.Join(base, "probe")
+			must(os.MkdirAll(filepath.Join(d, "src", "sub"), 0o755))
+			must(os.WriteFile(filepath.Join(d, "src", "sub", "file"), []byte("x"), 0o644))
+			defer os.RemoveAll(d)
+			defer func() {
+				if p := recover(); p != nil {
+					c.Note("observation (not part of C34): RecursiveCopy(from = \"<dir>/\", ...) with a trailing slash panics: %v (name[len(from):] assumes a clean path; all callers pass filepath.Join results)", p)
+				}
+			}()
+			err := fs.RecursiveCopy(filepath.Join(d, "src")+"/", filepath.Join(d, "dst"), 0o644)
+			c.Note("observation (not part of C34): RecursiveCopy with a trailing slash on `from` returned %v", err)
+		}()
 
 		// --- 4. destinations that already exist
 		nadv := c.Scale(120, 1500)
